@@ -308,6 +308,13 @@ def run_cases(seed, lo, hi, extra):
             c["script"] = [a for a in c["script_all"] if type(a).__name__ not in ("InsertNamespace", "DeleteNamespace")]
             c["final"] = rd.final_left()
             c["diff_exc"] = None
+            c["reuse"] = None
+            if idx % 4 == 0 and not nsq:
+                # the same Differ asked again about the same tree objects (set_trees / match / diff on a used instance)
+                try:
+                    c["reuse"] = ("ok",) + rd.reuse()
+                except Exception as e:  # noqa
+                    c["reuse"] = ("err", real.exc_sig(e))
         except Exception as e:  # the real differ raised
             c["diff_exc"] = real.exc_sig(e)
             c["script"] = None
@@ -419,6 +426,27 @@ def run_cases(seed, lo, hi, extra):
                 st.failures.append({"prop": "C03", "sig": "C03/equal-documents-nonempty-script", **desc})
         if (not eq) and not script:
             st.failures.append({"prop": "C03", "sig": "C03/different-documents-empty-script", **desc})
+        ru = c.get("reuse")
+        if ru is not None:
+            st.count("reused_differ")
+            if ru[0] == "err":
+                st.failures.append({"prop": "C07", "sig": f"C07/reused-differ-raises/{ru[1]}", **desc})
+            else:
+                _, left2, pairs2, script2 = ru
+                lids = [n.id for n in L.iter()]
+                rids = [n.id for n in R.iter()]
+                if xt.doc_eq(left2, L, none_eq_empty=False) is not None:
+                    st.failures.append({"prop": "C07", "sig": "C07/reused-differ-matches-a-tree-that-is-not-the-left-document",
+                                        "matched_over": xt.to_xml(left2), **desc})
+                elif any(a is None or b is None or a >= len(lids) or b >= len(rids) for a, b in pairs2):
+                    st.failures.append({"prop": "C07", "sig": "C07/reused-differ-foreign-node", **desc})
+                elif [(lids[a], rids[b]) for a, b in pairs2] != list(c["match"]):
+                    st.failures.append({"prop": "C07", "sig": "C07/reused-differ-matching-differs", **desc})
+                s2 = [a for a in script2 if type(a).__name__ not in ("InsertNamespace", "DeleteNamespace")]
+                if eq and s2 and not (ign and xt.doc_eq(L, R) is not None):
+                    st.failures.append({"prop": "C03", "sig": "C03/equal-documents-nonempty-script/second-diff-on-one-differ", **desc})
+                if (not eq) and not s2:
+                    st.failures.append({"prop": "C03", "sig": "C03/different-documents-empty-script/second-diff-on-one-differ", **desc})
         if eq:
             st.count("equal_pairs")
             # ---- U2eq: the oracle hypotheses of C03_equal_documents_empty_script against the real node_ratio
